@@ -6,11 +6,12 @@
    (b) Model/Heap.v + Gen/MutSkeleton.v: may-alias effect skeletons extracted from the source of every public function
        of deepali.core.functional and deepali.losses.functional and of every package function they call.
 
-   FULL STATEMENT (false of the faithful model, see the _refuted theorems and the runtime sweep):
+   FULL STATEMENT (holds of the model for the elementary transforms since the accessors un-share _parameters):
      every with-argument accessor leaves every existing object unchanged, for every way the parameters are held.
-   _partial: the accessors data(arg) / unlink() are proved only for parameters that are not held in the module's
-   _parameters dict; composite transforms (shared sub-modules) and MultiLevelTransform.tensor() are outside the model
-   and covered by the runtime sweep only; the skeleton names listed in Model/HeapPins.v have a possibly written parameter in their checked summary (abstraction too coarse, or callers of such functions). *)
+   Outside the model, covered by the runtime sweep only: composite transforms (copies of the member modules),
+   matrix(m), the resampling done by grid(g) of the non-rigid transforms, MultiLevelTransform.tensor(); the skeleton names
+   listed in Model/HeapPins.v have a possibly written parameter in their checked summary (abstraction too coarse, or
+   callers of such functions). *)
 From Coq Require Import String List Bool Arith Lia.
 From DV Require Import Model.ObjGraph Model.Heap Model.HeapPins Gen.MutSkeleton Proofs.C15Graph Proofs.C15Indep.
 Import ListNotations.
@@ -43,24 +44,31 @@ Proof.
 Qed.
 Print Assumptions C15_transform_accessors_preserve.
 
-(* 3. data(arg), unlink(): proved when the parameters are not registered in _parameters *)
-Theorem C15_data_unlink_preserve_partial :
+(* 3. data(arg), unlink(): however the parameters are held (Parameter, buffer, plain attribute) -- the copy made by these
+      accessors has its own _parameters dict *)
+Theorem C15_data_unlink_preserve :
   forall (st : store) (o x : obj) (v : nat) (st' : store) (c' : obj),
-  ismod o = true -> wf_obj st o -> wf_obj st x -> has_entry (cv st (pc o)) n_params = false ->
+  ismod o = true -> wf_obj st x ->
   (acc_data st o v = SOk st' c' -> snap st' x = snap st x)
   /\ (acc_unlink st o = SOk st' c' -> snap st' x = snap st x).
 Proof.
-  exact (fun st o x v st' c' Ho Hwo Hx Hnp =>
-           conj (acc_data_preserves_partial st o v x st' c' Ho Hwo Hx Hnp)
-                (acc_unlink_preserves_partial st o x st' c' Ho Hwo Hx Hnp)).
+  exact (fun st o x v st' c' Ho Hx =>
+           conj (acc_data_preserves st o v x st' c' Ho Hx) (acc_unlink_preserves st o x st' c' Ho Hx)).
 Qed.
-Print Assumptions C15_data_unlink_preserve_partial.
+Print Assumptions C15_data_unlink_preserve.
 
-Theorem C15_data_unlink_refuted :
-  match acc_data st0 tr0 5 with SOk st' _ => snap_eqb (snap st' tr0) (snap st0 tr0) | SErr => true end = false
-  /\ match acc_unlink st0 tr0 with SOk st' _ => snap_eqb (snap st' tr0) (snap st0 tr0) | SErr => true end = false.
-Proof. exact (conj acc_data_param_refuted acc_unlink_param_refuted). Qed.
-Print Assumptions C15_data_unlink_refuted.
+(* the former counterexamples (Parameter-held parameters): the receiver is unchanged and the copy differs from it;
+   a plain shallow copy followed by an in-place setter still reaches the receiver (the sharing inverse() relies on) *)
+Theorem C15_data_unlink_fixed :
+  match acc_data st0 tr0 5 with
+  | SOk st' c => snap_eqb (snap st' tr0) (snap st0 tr0) && negb (snap_eqb (snap st' c) (snap st' tr0)) | SErr => false end = true
+  /\ match acc_unlink st0 tr0 with
+     | SOk st' c => snap_eqb (snap st' tr0) (snap st0 tr0) && negb (snap_eqb (snap st' c) (snap st' tr0)) | SErr => false end = true
+  /\ (let '(st1, c) := shallow_copy st0 tr0 in
+      match module_setattr (fst (alloc_tensor st1 5)) c n_params (VParam (snd (alloc_tensor st1 5))) with
+      | SOk st' _ => snap_eqb (snap st' tr0) (snap st0 tr0) | SErr => true end = false).
+Proof. exact (conj acc_data_param_fixed (conj acc_unlink_param_fixed shallow_copy_shares_parameters)). Qed.
+Print Assumptions C15_data_unlink_fixed.
 
 (* 4. deep copies: the copy shares nothing with the original, and whatever is done afterwards to either of them --
       in-place arithmetic on any tensor it holds, rebinding of slots, parameters, buffers, in any interleaving --
